@@ -505,7 +505,7 @@ where
     T: beve::BeveTypedSlice,
 {
     match BodyFormat::try_from(req.header.body_format) {
-        Ok(BodyFormat::Beve) => Ok(Ok(beve::read_typed_slice(&req.body)?)),
+        Ok(BodyFormat::Beve) => Ok(Ok(crate::message::read_typed_slice_body(&req.body)?)),
         _ => Ok(Err(create_error_response_like(
             req,
             ErrorCode::InvalidBody,
@@ -523,7 +523,7 @@ where
     T: beve::BeveTypedSlice,
 {
     match BodyFormat::try_from(view.header.body_format) {
-        Ok(BodyFormat::Beve) => Ok(Ok(beve::read_typed_slice(view.body)?)),
+        Ok(BodyFormat::Beve) => Ok(Ok(crate::message::read_typed_slice_body(view.body)?)),
         _ => Ok(Err(create_error_response_unstamped_view(
             view,
             ErrorCode::InvalidBody,
@@ -628,7 +628,9 @@ where
             )?)),
         }
     } else {
-        Ok(SliceInput::Owned(beve::read_typed_slice::<T>(body)?))
+        Ok(SliceInput::Owned(crate::message::read_typed_slice_body::<T>(
+            body,
+        )?))
     }
 }
 
